@@ -547,3 +547,49 @@ M("C11", "pair-step-guard-style-not-a-tuple", F, PAIR_BODY,
 M("C11", "pair-step-enumerate-loop-tuple-only", F, "", "", "C11.R11", edits=[
     (F, LOOP_HEAD, '        for position, option in enumerate(steps):\n' + NOARG_TEST),
     (F, PAIR_TEST, '            elif type(option) in (tuple,) and len(option) > 1:\n')])
+
+# R12: a builder method that is given a list of items adds one statement per item, in the order given.  How the loop is written (a
+# copy of the list, enumerate, unpacking in the body, a comprehension, delegation to another helper, a mapping accepted *as a mapping*)
+# does not matter; running over a projection that keeps one item per name / reorders / cuts the list, or leaving items out because of
+# the items before, does
+PAIR_FOR = '        for a, b in value:\n'
+HDR_FOR = '        for header_name, header_val in value:\n'
+PARAM_FOR = '        for param, val in value:\n'
+GATE_FOR = '        for option in options:\n            block._enable(option.lower(), True)\n'
+EXEC_FOR = '        for option in execute_list:\n            if isinstance(option, (list, tuple)):\n'
+PARAM_BODY = (PARAM_FOR + '            param = value_to_string(param)\n            val = value_to_string(val)\n            self.tree.children.append(\n'
+              '                Tree(\n                    "parameter",\n                    [\n                        Tree("string", [Token("STRING", param)]),\n'
+              '                        Tree("string", [Token("STRING", val)]),\n                    ],\n                )\n            )\n')
+HDR_BODY = (HDR_FOR + '            header_name = value_to_string(header_name)\n            header_val = value_to_string(header_val)\n            self.tree.children.append(\n'
+            '                Tree(\n                    "header",\n                    [\n                        Tree("string", [Token("STRING", header_name)]),\n'
+            '                        Tree("string", [Token("STRING", header_val)]),\n                    ],\n                )\n            )\n')
+T("C11", "twin-pairs-copied-list-or-empty", F, PAIR_FOR, '        for a, b in list(value or []):\n')
+T("C11", "twin-pairs-enumerated", F, PAIR_FOR, '        for _position, (a, b) in enumerate(value):\n')
+T("C11", "twin-pairs-unpacked-in-body", F, PAIR_FOR, '        for pair in value:\n            a, b = pair\n')
+T("C11", "twin-pairs-mapping-items-or-sequence", F, PAIR_FOR, '        items = value.items() if isinstance(value, dict) else value\n        for a, b in items:\n')
+T("C11", "twin-pairs-mapping-copied-under-type-test", F, HDR_FOR,
+  '        if isinstance(value, dict):\n            value = list(dict(value).items())\n' + HDR_FOR)
+T("C11", "twin-pairs-mapping-by-protocol", F, PARAM_FOR, '        for param, val in dict(value).items() if hasattr(value, "keys") else value:\n')
+T("C11", "twin-pairs-unpack-checked", F, PAIR_FOR,
+  '        for pair in value:\n            try:\n                a, b = pair\n            except (TypeError, ValueError):\n                raise ValueError(f"not a (name, value) pair: {pair!r}")\n')
+T("C11", "twin-parameter-pairs-comprehension", F, PARAM_BODY,
+  '        self.tree.children.extend(\n            Tree("parameter", [Tree("string", [Token("STRING", value_to_string(param))]), Tree("string", [Token("STRING", value_to_string(val))])])\n'
+  '            for param, val in value\n        )\n')
+T("C11", "twin-header-pairs-delegated-one-by-one", F, HDR_BODY, HDR_FOR + '            self._pair("header", [(header_name, header_val)])\n')
+T("C11", "twin-gate-options-lowered-first", F, GATE_FOR, '        names = [option.lower() for option in options]\n        for name in names:\n            block._enable(name, True)\n')
+M("C11", "pairs-sorted-by-name", F, PAIR_FOR, '        for a, b in sorted(value):\n', "C11.R12")
+M("C11", "header-pairs-through-dict-comprehension", F, HDR_FOR, '        for header_name, header_val in {k: v for k, v in value}.items():\n', "C11.R12")
+M("C11", "parameter-pairs-normalised-to-ordered-dict", F, PARAM_FOR, '        value = collections.OrderedDict(value)\n        for param, val in value.items():\n', "C11.R12")
+M("C11", "pairs-dict-when-given-a-list", F, PAIR_FOR, '        items = dict(value).items() if isinstance(value, (list, tuple)) else value\n        for a, b in items:\n', "C11.R12")
+M("C11", "pairs-repeated-name-skipped", F, PAIR_FOR,
+  '        seen = set()\n        for a, b in value:\n            if a in seen:\n                continue\n            seen.add(a)\n', "C11.R12")
+M("C11", "header-pairs-last-value-wins", F, HDR_FOR,
+  '        latest = {}\n        for header_name, header_val in value:\n            latest[header_name] = header_val\n        for header_name, header_val in latest.items():\n', "C11.R12")
+M("C11", "gate-options-as-a-set", F, GATE_FOR, '        for option in set(options):\n            block._enable(option.lower(), True)\n', "C11.R12")
+M("C11", "gate-options-unique-lowered", F, GATE_FOR, '        for name in dict.fromkeys(option.lower() for option in options):\n            block._enable(name, True)\n', "C11.R12")
+M("C11", "execute-list-back-to-front", F, EXEC_FOR, '        for option in execute_list[::-1]:\n            if isinstance(option, (list, tuple)):\n', "C11.R12")
+M("C11", "pairs-inserted-at-the-front", F, '            b = value_to_string(b)\n            self.tree.children.append(\n',
+  '            b = value_to_string(b)\n            self.tree.children.insert(\n                0,\n', "C11.R12")
+M("C11", "parameter-pairs-comprehension-over-dict", F, PARAM_BODY,
+  '        self.tree.children.extend(\n            Tree("parameter", [Tree("string", [Token("STRING", value_to_string(param))]), Tree("string", [Token("STRING", value_to_string(val))])])\n'
+  '            for param, val in dict(value).items()\n        )\n', "C11.R12")
